@@ -91,6 +91,12 @@ def is_repo_function(func):
     return fn.startswith(REPO + '/placement/') and '/tests/' not in fn
 
 
+MUTATORS = frozenset(['append', 'add', 'update', 'extend', 'pop', 'remove',
+                       'clear', 'setdefault', 'insert', 'discard', 'sort',
+                       'popitem', 'reverse', 'difference_update',
+                       'intersection_update'])
+
+
 def assigned_names(nodes):
     """Names (re)bound, and names used as receiver of a mutation, inside a
     list of statements (used for loop havoc)."""
@@ -125,7 +131,7 @@ def assigned_names(nodes):
 
         def visit_Call(self, n):
             f = n.func
-            if isinstance(f, ast.Attribute):
+            if isinstance(f, ast.Attribute) and f.attr in MUTATORS:
                 root = f.value
                 while isinstance(root, (ast.Subscript, ast.Attribute)):
                     root = root.value
